@@ -450,6 +450,78 @@ def gen_user_term(rng, k, rot):
     return ctx, recipe
 
 
+# ---------------------------------------------------------------------------------------------
+# simultaneous substitution maps with overlapping keys and values, into combinations of >= 2 tensors
+# ---------------------------------------------------------------------------------------------
+
+SUBS_PATTERNS = ["num+rename-onto-key", "index+rename-onto-key", "swap", "chain", "diagonal",
+                 "slice+rename-onto-key", "rename-onto-survivor", "index-on-other-key+num", "index-same-name+rename",
+                 "num+rename-onto-key+third", "chain3", "index+swap"]
+SUBS_GRID = [(p, b) for b in ("mul", "add") for p in SUBS_PATTERNS]
+
+
+def gen_subs_grid(rng, k, rot):
+    """z = X op Y (op Z) over inputs i, j, k of EQUAL size, then ONE substitution call whose keys and values
+    overlap: the immediate route substitutes into the combined ground Tensor (Tensor.eager_subs' rename /
+    diagonal bookkeeping), the deferred routes distribute the substitution over the factors."""
+    pat, bop = SUBS_GRID[k] if k < len(SUBS_PATTERNS) else SUBS_GRID[(k + rot) % len(SUBS_GRID)]
+    s = rng.choice([2, 3, 3])
+    ctx = OrderedDict((n, s) for n in ("i", "j", "k", "l"))
+    X = gen_terms.gen_tensor(rng, ctx, "real", names=["i"] + [n for n in ("k", "l") if rng.random() < 0.4])
+    Y = gen_terms.gen_tensor(rng, ctx, "real", names=["j"] + [n for n in ("k", "l") if rng.random() < 0.4])
+    z = ("binary", bop, X, Y)
+    if rng.random() < 0.35 or pat in ("chain3", "num+rename-onto-key+third"):
+        Zt = gen_terms.gen_tensor(rng, ctx, "real", names=["k"] + [n for n in ("i", "j") if rng.random() < 0.4])
+        z = ("binary", rng.choice(["mul", "add"]), z, Zt)
+    if rng.random() < 0.25:
+        z = ("unary", "neg", z)
+
+    def num():
+        return ("num", rng.randrange(s), s)
+
+    def index(over):
+        shape = tuple(s for _ in over)
+        data = np.array([rng.randrange(s) for _ in range(int(np.prod(shape)) if shape else 1)],
+                        dtype=np.int64).reshape(shape)
+        return ("tensor", tuple((n, s) for n in over), s, (), data)
+
+    def var(n):
+        return ("var", n, s)
+    if pat == "num+rename-onto-key":
+        sub = (("i", num()), ("j", var("i")))
+    elif pat == "index+rename-onto-key":
+        sub = (("i", index([rng.choice(["k", "l"])])), ("j", var("i")))
+    elif pat == "swap":
+        sub = (("i", var("j")), ("j", var("i")))
+    elif pat == "chain":
+        sub = (("i", var("j")), ("j", var("k")))
+    elif pat == "diagonal":
+        sub = (("i", var("l")), ("j", var("l")))
+    elif pat == "slice+rename-onto-key":
+        sub = (("i", ("slice", "m", 0, s, 1, s)), ("j", var("i")))
+    elif pat == "rename-onto-survivor":
+        sub = (("j", var("i")),)
+    elif pat == "index-on-other-key+num":
+        sub = (("i", index(["j"])), ("j", num()))
+    elif pat == "index-same-name+rename":
+        sub = (("i", index(["i"])), ("j", var("i")))
+    elif pat == "num+rename-onto-key+third":
+        sub = (("i", num()), ("j", var("i")), ("k", var("j")))
+    elif pat == "chain3":
+        sub = (("i", var("j")), ("j", var("k")), ("k", var("i")))
+    else:  # index+swap
+        sub = (("i", index(["j"])), ("j", var("i")))
+    sub = list(sub)
+    rng.shuffle(sub)                      # keyword order of the call
+    recipe = ("subs", z, tuple(sub))
+    if rng.random() < 0.3:
+        _, free = recipe_wire(recipe)
+        names = sorted(n for n, v in free.items() if v != "real")
+        if names:
+            recipe = ("reduce", rng.choice(["add", "max"]), recipe, (rng.choice(names),), ())
+    return ctx, recipe
+
+
 def cases(base_seed, n):
     """The seeded case list: [(ctx, recipe, family, env)]; env binds the free real inputs; the pseudo-binding
     "__approx__" marks expressions with inexact ops (compared after rounding)."""
@@ -458,6 +530,7 @@ def cases(base_seed, n):
     out = []
     grid0 = 0
     user0 = 0
+    subs0 = 0
     for idx in range(n):
         if idx % 5 == 4:
             ctx, recipe = gen_sum_product(rng)
@@ -469,6 +542,12 @@ def cases(base_seed, n):
             ctx, recipe = gen_user_term(rng, user0, rot)
             user0 += 1
             out.append((ctx, recipe, "user-terms(make_funsor)", {}))
+        elif idx % 10 == 3:
+            ctx, recipe = gen_subs_grid(rng, subs0, rot)
+            subs0 += 1
+            if carrier_risky(recipe):
+                recipe = to_nonneg(recipe)
+            out.append((ctx, recipe, "subs-grid(overlapping keys/values)", {}))
         elif idx % 5 in (1, 3):
             ctx, recipe = gen_cnf_grid(rng, grid0, rot)
             grid0 += 1
